@@ -319,7 +319,9 @@ func (s Server) Serve(c context.Context, conn network.Conn) (err error) {
 			}
 		}
 
-		connectionClose = s.DisableKeepalive || ctx.Request.Header.ConnectionClose()
+		// A client may send the body without waiting for '100 Continue': after a declined
+		// expectation the body was not read, so nothing sensible can follow on this connection.
+		connectionClose = s.DisableKeepalive || ctx.Request.Header.ConnectionClose() || !continueReadingRequest
 		isHTTP11 = ctx.Request.Header.IsHTTP11()
 
 		if serverName != nil {
